@@ -15,6 +15,7 @@ import (
 	"net"
 	"os"
 	"strconv"
+	"sync"
 	"sync/atomic"
 	"testing"
 	"testing/synctest"
@@ -35,8 +36,9 @@ import (
 func init() { encoding.RegisterCodec(rawh2.RawCodec{}) }
 
 type c22Scen struct {
-	Point     string `json:"point"` // resolver | picker | quota | write | recv | handler
-	Kind      string `json:"kind"`  // unary | stream
+	Point     string `json:"point"` // resolver | picker | quota | write | recv | recvmid | handler
+	Kind      string `json:"kind"`  // unary | stream (bidi) | cstream (client streaming)
+	Tracing   bool   `json:"tracing"` // grpc.EnableTracing
 	Delay     string `json:"delay"` // none | pick | quota
 	HasDl     bool   `json:"hasDl"`
 	Dl        int64  `json:"dl"` // ns after start
@@ -49,6 +51,8 @@ type c22Scen struct {
 type c22Rec struct {
 	tr    *vlib.Trace
 	start time.Time
+	mu    sync.Mutex
+	dead  bool // the scenario was abandoned by the watchdog: nothing more is recorded
 }
 
 func (r *c22Rec) emit(ev string, kv ...any) {
@@ -56,7 +60,19 @@ func (r *c22Rec) emit(ev string, kv ...any) {
 	for i := 0; i+1 < len(kv); i += 2 {
 		m[kv[i].(string)] = kv[i+1]
 	}
-	r.tr.Emit(m)
+	r.mu.Lock()
+	defer r.mu.Unlock()
+	if !r.dead {
+		r.tr.Emit(m)
+	}
+}
+
+// abandon is called by the real-time watchdog (outside the bubble).
+func (r *c22Rec) abandon() {
+	r.mu.Lock()
+	defer r.mu.Unlock()
+	r.dead = true
+	r.tr.Emit(map[string]any{"ev": "stuck", "t": 0})
 }
 
 func (r *c22Rec) sleepUntil(ns int64) {
@@ -94,15 +110,17 @@ func c22Timeout(v string) int64 {
 	return n * u
 }
 
-func c22Run(t *testing.T, tr *vlib.Trace, sc c22Scen) {
+func c22Run(t *testing.T, rec *c22Rec, sc c22Scen) {
 	synctest.Test(t, func(t *testing.T) {
-		rec := &c22Rec{tr: tr, start: time.Now()}
+		rec.start = time.Now()
 		defer func() {
 			if p := recover(); p != nil {
-				tr.Emit(map[string]any{"ev": "panic", "t": 0, "msg": fmt.Sprint(p)})
+				rec.emit("panic", "msg", fmt.Sprint(p))
 			}
 		}()
 		var ended atomic.Bool
+		var connMu sync.Mutex
+		var rawConns []net.Conn
 		lis := bufconn.Listen(1 << 20)
 		var srv *grpc.Server
 		relQuota := make(chan struct{})
@@ -130,6 +148,9 @@ func c22Run(t *testing.T, tr *vlib.Trace, sc c22Scen) {
 		} else {
 			go rawh2.Serve(lis, func(c net.Conn) {
 				defer c.Close()
+				connMu.Lock()
+				rawConns = append(rawConns, c)
+				connMu.Unlock()
 				p, err := rawh2.NewServerPeer(c)
 				if err != nil {
 					return
@@ -175,6 +196,12 @@ func c22Run(t *testing.T, tr *vlib.Trace, sc c22Scen) {
 							}
 							rec.emit("srv", "has", v != "", "v", ns, "raw", v, "handler", false)
 						}
+						if sc.Point == "recvmid" {
+							// response HEADERS, the 5-byte message prefix announcing 100 bytes, 10 bytes of payload; then stall
+							p.WriteHeaders(f.StreamID, false, ":status", "200", "content-type", "application/grpc")
+							part := rawh2.GrpcFrame(make([]byte, 100), false)[:15]
+							p.WriteData(f.StreamID, false, part)
+						}
 					}
 				}
 			})
@@ -219,6 +246,24 @@ func c22Run(t *testing.T, tr *vlib.Trace, sc c22Scen) {
 			small, resp := []byte("x"), []byte{}
 			if sc.Kind == "unary" {
 				err = cc.Invoke(ctx, "/c22/m", &small, &resp)
+			} else if sc.Kind == "cstream" {
+				var s grpc.ClientStream
+				op = "newstream"
+				s, err = cc.NewStream(ctx, &grpc.StreamDesc{ClientStreams: true}, "/c22/m")
+				if err == nil {
+					op = "send"
+					err = s.SendMsg(&small)
+					if err == nil {
+						op = "closesend"
+						err = s.CloseSend()
+					}
+					if err == nil || err == io.EOF {
+						if err == nil {
+							op = "recv"
+						}
+						err = s.RecvMsg(&resp)
+					}
+				}
 			} else {
 				var s grpc.ClientStream
 				op = "newstream"
@@ -295,14 +340,52 @@ func c22Run(t *testing.T, tr *vlib.Trace, sc c22Scen) {
 				close(relQuota)
 			}
 		}
-		cc.Close()
+		// the peer goes away first: whatever is still blocked on the connection is released
 		if srv != nil {
 			srv.Stop()
 		}
+		connMu.Lock()
+		for _, c := range rawConns {
+			c.Close()
+		}
+		connMu.Unlock()
+		synctest.Wait()
+		cc.Close()
 		lis.Close()
 		<-rpcDone
 		synctest.Wait()
 	})
+}
+
+// c22Guarded runs one scenario under a real-time watchdog.  A scenario that makes no progress in
+// real time (e.g. a goroutine blocked on a mutex keeps the bubble from ever becoming idle) or whose
+// bubble deadlocks is recorded as "stuck" and abandoned (its goroutines leak); the driver goes on.
+func c22Guarded(t *testing.T, tr *vlib.Trace, sc c22Scen, watchdog time.Duration) (stuck bool) {
+	rec := &c22Rec{tr: tr}
+	old := grpc.EnableTracing
+	grpc.EnableTracing = sc.Tracing
+	defer func() { grpc.EnableTracing = old }()
+	done := make(chan bool, 1)
+	go func() {
+		defer func() {
+			if p := recover(); p != nil { // synctest deadlock panic of the bubble
+				done <- false
+			}
+		}()
+		c22Run(t, rec, sc)
+		done <- true
+	}()
+	select {
+	case ok := <-done:
+		if !ok {
+			rec.abandon()
+			return true
+		}
+		return false
+	case <-time.After(watchdog):
+		rec.abandon()
+		return true
+	}
 }
 
 func TestVerifC22Scenarios(t *testing.T) {
@@ -315,14 +398,27 @@ func TestVerifC22Scenarios(t *testing.T) {
 		t.Fatal(err)
 	}
 	defer tr.Close()
+	watchdog := time.Duration(vlib.EnvInt("VERIF_C22_WATCHDOG_S", 20)) * time.Second
+	stuckKeys := map[string]bool{}
+	nstuck, nskipped := 0, 0
 	for i, ln := range lines {
 		var sc c22Scen
 		if err := json.Unmarshal(ln, &sc); err != nil {
 			t.Fatal(err)
 		}
+		// once a (blocking point, kind, tracing) class has hung, its remaining scenarios are not executed:
+		// the verdict is already in the trace and every further one would cost a watchdog period
+		key := fmt.Sprintf("%s/%s/%v", sc.Point, sc.Kind, sc.Tracing)
+		if stuckKeys[key] {
+			nskipped++
+			continue
+		}
 		tr.Emit(map[string]any{"ev": "reset", "b": i, "point": sc.Point, "kind": sc.Kind, "delay": sc.Delay, "hasDl": sc.HasDl,
-			"dl": sc.Dl, "hasCancel": sc.HasCancel, "cancelAt": sc.CancelAt})
-		c22Run(t, tr, sc)
+			"dl": sc.Dl, "hasCancel": sc.HasCancel, "cancelAt": sc.CancelAt, "tracing": sc.Tracing})
+		if c22Guarded(t, tr, sc, watchdog) {
+			stuckKeys[key] = true
+			nstuck++
+		}
 	}
-	fmt.Printf("VERIF_SUMMARY {\"behaviours\":%d,\"events\":%d}\n", len(lines), tr.N)
+	fmt.Printf("VERIF_SUMMARY {\"behaviours\":%d,\"events\":%d,\"stuck\":%d,\"skipped\":%d}\n", len(lines), tr.N, nstuck, nskipped)
 }
